@@ -130,23 +130,24 @@ class _RemotePathMapper:
                 )
         return result
 
-    def invalidate_location(self, location: ExecutionLocation, path: str) -> None:
-        node = self._filesystem
-        for token in Path(path).parts:
-            node = node.children[token]
+    def _invalidate_node(
+        self, location: ExecutionLocation, node: _RemotePathNode
+    ) -> None:
         # Invalidate node
         for data_loc in node.locations.get(location.deployment, {}).get(
             location.name, set()
         ):
             data_loc.data_type = DataType.INVALID
             node.valid_paths[location.deployment][location.name].discard(data_loc.path)
-        # Propagate
+        # Propagate to the whole subtree
         for node_child in node.children.values():
-            for data_loc in node_child.locations.get(location.deployment, {}).get(
-                location.name, set()
-            ):
-                if data_loc.data_type != DataType.INVALID:
-                    self.invalidate_location(data_loc.location, data_loc.path)
+            self._invalidate_node(location, node_child)
+
+    def invalidate_location(self, location: ExecutionLocation, path: str) -> None:
+        node = self._filesystem
+        for token in Path(path).parts:
+            node = node.children[token]
+        self._invalidate_node(location, node)
 
     def put(
         self, path: str, data_location: DataLocation, recursive: bool = False
